@@ -40,9 +40,18 @@ import (
 //	squat <port> | free <port>       => ok|taken|notheld ; state
 //	tick                             => state          (one more complete pass)
 //	close                            => state          (Manager.Close)
+//	closerace <port|0>               => ok|notheld ; state   (Manager.Close overtaking an iteration of the loop, see vmgrCloseRace)
 //	xfer <name>                      => ok|notfound|closed   (Manager.TransferConn)
 //
-//	state = cfg=<name:variant:port>,…;run=<name.generation>,…;busy=<port keys that cannot be bound>
+//	state = cfg=<name:variant:port>,…;run=<name.generation>,…;busy=<port keys that cannot be bound>;held=<port keys the
+//	harness holds>[;closed]     (closed: Close() has been called and no UpdateAll since)
+//
+// A reload is what apiReload does (eng_c19_load.go): the entries without a harness plugin are written as a
+// configuration file that spells out only what the token sets (bindAddr 127.0.0.1, xtcp's protocol /
+// maxRetriesAnHour / minRetryInterval / fallbackTimeoutMs … are left to the loader's Complete()) and come
+// back from config.LoadClientConfig + validation as fresh objects; entries with a harness plugin (types the
+// loader does not know) are built in place, fresh as well.  The variant reported for a stored entry is
+// vmgrMutated when the object no longer equals a second load of the same text.
 //
 // variant = mixed-radix code of every other field of the configuration (vmgrRadix); generation =
 // how many visitor objects have been seen under that name (a restart shows as a new generation).
@@ -123,7 +132,13 @@ type vmgrState struct {
 	keep    []any // keeps every visitor object reachable: no address is ever reused
 	tokens  map[v1.VisitorConfigurer]string
 	started bool
+	// the same entry loaded / built a second time, never given to frp
+	pristine map[v1.VisitorConfigurer]v1.VisitorConfigurer
+	loader   c19Loader
+	quiet    bool // Close() has been called and no UpdateAll since
 }
+
+const vmgrMutated = 999999999
 
 var (
 	vmgrSt       *vmgrState
@@ -213,6 +228,7 @@ func vmgrReset() {
 	if s := vmgrSt; s != nil {
 		s.vm.Close() // also closes visitors started after an earlier Close
 		s.cancel()
+		s.loader.close()
 		for k, l := range s.squat {
 			if l != nil {
 				l.Close()
@@ -224,7 +240,8 @@ func vmgrReset() {
 	ctx, cancel := context.WithCancel(context.Background())
 	common := &v1.ClientCommonConfig{}
 	common.Complete()
-	s := &vmgrState{cancel: cancel, gen: map[string]int{}, seen: map[uintptr]int{}, tokens: map[v1.VisitorConfigurer]string{}}
+	s := &vmgrState{cancel: cancel, gen: map[string]int{}, seen: map[uintptr]int{}, tokens: map[v1.VisitorConfigurer]string{},
+		pristine: map[v1.VisitorConfigurer]v1.VisitorConfigurer{}}
 	s.vm = visitor.NewManager(ctx, "run", common, func() (net.Conn, error) { return nil, fmt.Errorf("no server") }, &capTransporter{}, nil)
 	vmgrField(s.vm, "checkInterval").Set(reflect.ValueOf(vmgrInterval))
 	s.mu = vmgrField(s.vm, "mu").Addr().Interface().(*sync.RWMutex)
@@ -235,26 +252,27 @@ func vmgrReset() {
 	vmgrSt = s
 }
 
-// build returns the configuration for a token, or nil when the token is not well-formed
-func (s *vmgrState) build(tok string) v1.VisitorConfigurer {
+// raw returns the entry a token stands for as it would be written in a configuration file (nothing
+// defaulted), or nil when the token is not well-formed; loadable = the loader knows every type in it
+func (s *vmgrState) raw(tok string) (c v1.VisitorConfigurer, key string, loadable bool) {
 	var name, variant, port, never int
 	if n, _ := fmt.Sscanf(strings.ReplaceAll(tok, ":", " "), "%d %d %d %d", &name, &variant, &port, &never); n != 4 {
-		return nil
+		return nil, "", false
 	}
 	if variant < 0 || variant >= vmgrVariants() || port < 0 || port > 5 {
-		return nil
+		return nil, "", false
 	}
 	d := vmgrDecode(variant)
 	if !vmgrCanon(d) {
-		return nil
+		return nil, "", false
 	}
 	isUDP := d[vfType] == 2
 	if port != 0 && s.addrs[port].udp != isUDP {
-		return nil
+		return nil, "", false
 	}
 	wantNever := d[vfPlugin] == 3 || (isUDP && port == 0)
 	if wantNever != (never == 1) {
-		return nil
+		return nil, "", false
 	}
 	b := v1.VisitorBaseConfig{Name: fmt.Sprintf("v%d", name), BindPort: -1}
 	b.Type = []string{"stcp", "xtcp", "sudp"}[d[vfType]]
@@ -272,9 +290,11 @@ func (s *vmgrState) build(tok string) v1.VisitorConfigurer {
 		b.Plugin = v1.TypedVisitorPluginOptions{Type: "verif-unregistered"}
 	}
 	if port != 0 {
-		b.BindAddr, b.BindPort = s.addrs[port].ip, s.addrs[port].port
+		b.BindPort = s.addrs[port].port
+		if s.addrs[port].ip != "127.0.0.1" {
+			b.BindAddr = s.addrs[port].ip // (127.0.0.1 is what Complete() fills in)
+		}
 	}
-	var c v1.VisitorConfigurer
 	switch d[vfType] {
 	case 0:
 		c = &v1.STCPVisitorConfig{VisitorBaseConfig: b}
@@ -289,9 +309,47 @@ func (s *vmgrState) build(tok string) v1.VisitorConfigurer {
 	case 2:
 		c = &v1.SUDPVisitorConfig{VisitorBaseConfig: b}
 	}
-	c.Complete(&v1.ClientCommonConfig{}) // what the loader does with every entry of a configuration file
-	s.tokens[c] = fmt.Sprintf("%d:%d:%d", name, variant, port)
-	return c
+	return c, fmt.Sprintf("%d:%d:%d", name, variant, port), d[vfPlugin] == 0
+}
+
+// loadList: what a reload hands to the manager (fresh objects), or nil when a token is not well-formed
+func (s *vmgrState) loadList(toks []string) ([]v1.VisitorConfigurer, string) {
+	out := make([]v1.VisitorConfigurer, len(toks))
+	keys := make([]string, len(toks))
+	var ents []map[string]any
+	var idx []int
+	for i, t := range toks {
+		c, key, loadable := s.raw(t)
+		if c == nil {
+			return nil, "badcfg"
+		}
+		keys[i] = key
+		if loadable {
+			ents = append(ents, c19Entry(c))
+			idx = append(idx, i)
+			continue
+		}
+		// a plugin type only the harness knows: built in place, twice
+		c.Complete(&v1.ClientCommonConfig{})
+		p, _, _ := s.raw(t)
+		p.Complete(&v1.ClientCommonConfig{})
+		out[i] = c
+		s.pristine[c] = p
+	}
+	if len(ents) > 0 {
+		ld, err := s.loader.load(nil, ents)
+		if err != nil {
+			return nil, "loaderr;" + hx(err.Error())
+		}
+		for j, i := range idx {
+			out[i] = ld.visitors[j]
+			s.pristine[out[i]] = ld.pristineV[j]
+		}
+	}
+	for i, c := range out {
+		s.tokens[c] = keys[i]
+	}
+	return out, ""
 }
 
 // waitPass returns after a complete pass of the keep-alive loop that began after the call
@@ -320,9 +378,14 @@ func (s *vmgrState) state(passed bool) string {
 			continue
 		}
 		c, _ := s.vm.VerifCfg(n)
-		t, ok := s.tokens[c.(v1.VisitorConfigurer)]
+		vc := c.(v1.VisitorConfigurer)
+		t, ok := s.tokens[vc]
 		if !ok {
 			t = strings.TrimPrefix(n, "v") + ":?:?"
+		} else if !c19Intact(vc, s.pristine[vc]) {
+			// something has written into the object the manager compares the next reload with
+			f := strings.Split(t, ":")
+			t = fmt.Sprintf("%s:%d:%s", f[0], vmgrMutated, f[2])
 		}
 		cs = append(cs, t)
 	}
@@ -354,11 +417,94 @@ func (s *vmgrState) state(passed bool) string {
 			l.Close()
 		}
 	}
-	out := "cfg=" + strings.Join(cs, ",") + ";run=" + strings.Join(run, ",") + ";busy=" + strings.Join(busy, ",")
+	var held []string
+	for k := 1; k <= 5; k++ {
+		if s.squat[k] != nil {
+			held = append(held, fmt.Sprint(k))
+		}
+	}
+	out := "cfg=" + strings.Join(cs, ",") + ";run=" + strings.Join(run, ",") + ";busy=" + strings.Join(busy, ",") +
+		";held=" + strings.Join(held, ",")
+	if s.quiet {
+		out += ";closed"
+	}
 	if !passed {
 		out += "!NOPASS"
 	}
 	return out
+}
+
+// vmgrBlocked: a goroutine with the given frame is waiting for a lock
+func vmgrBlocked(frame string) bool {
+	buf := make([]byte, 1<<20)
+	n := runtime.Stack(buf, true)
+	for n == len(buf) {
+		buf = make([]byte, 2*len(buf))
+		n = runtime.Stack(buf, true)
+	}
+	for _, g := range strings.Split(string(buf[:n]), "\n\n") {
+		if !strings.Contains(g, frame) {
+			continue
+		}
+		i, j := strings.Index(g, "["), strings.Index(g, "]")
+		if i >= 0 && j > i && (strings.Contains(g[i:j], "Lock") || strings.Contains(g[i:j], "semacquire")) {
+			return true
+		}
+	}
+	return false
+}
+
+func vmgrWaitFor(cond func() bool, d time.Duration) bool {
+	deadline := time.Now().Add(d)
+	for !cond() {
+		if time.Now().After(deadline) {
+			return false
+		}
+		time.Sleep(100 * time.Microsecond)
+	}
+	return true
+}
+
+// closeRace: Manager.Close() while an iteration of the keep-alive loop is waiting for vm.mu behind it.
+// The harness takes vm.mu (as any reader / UpdateAll could), lets Close() queue up for it, then the
+// loop's next iteration (the ticker fires within checkInterval), releases address k if it holds it, and
+// lets go: Close() runs, then the iteration — the order in which they asked.  Nothing here touches frp's
+// code; the schedule is one the Go runtime may produce whenever the ticker fires while Close() waits for
+// or holds the lock.
+func (s *vmgrState) closeRace(k int) string {
+	r := "ok"
+	if k != 0 && s.squat[k] == nil {
+		r = "notheld"
+	}
+	if s.started && !s.closed {
+		// right after an iteration: the next one is a whole checkInterval away, Close() gets to the lock first
+		// (nothing that stops the world - runtime.Stack - between here and `go Close()`); should the machine be so
+		// busy that the iteration gets there first all the same, the model accepts that order too (Engines/Vmgr.lean)
+		c0 := vmgrHits.Load()
+		for i := 0; vmgrHits.Load() == c0 && i < 20000; i++ {
+			time.Sleep(100 * time.Microsecond)
+		}
+	}
+	s.mu.Lock()
+	done := make(chan struct{})
+	go func() { s.vm.Close(); close(done) }()
+	queued := vmgrWaitFor(func() bool { return vmgrBlocked("visitor.(*Manager).Close") }, 2*time.Second)
+	if queued && s.started && !s.closed {
+		queued = vmgrWaitFor(func() bool { return vmgrBlocked("visitor.(*Manager).keepVisitorsRunning") }, 2*time.Second)
+	}
+	if k != 0 && s.squat[k] != nil {
+		s.squat[k].Close()
+		s.squat[k] = nil
+	}
+	s.mu.Unlock()
+	select {
+	case <-done:
+	case <-time.After(2 * time.Second):
+		queued = false
+	}
+	s.closed, s.quiet = true, true
+	vmgrWaitLoopGone()
+	return r + ";" + s.state(queued)
 }
 
 func vmgrExec(tok []string) string {
@@ -371,16 +517,13 @@ func vmgrExec(tok []string) string {
 		vmgrReset()
 		return "-"
 	case "vupd":
-		cfgs := []v1.VisitorConfigurer{}
-		for _, t := range tok[1:] {
-			c := s.build(t)
-			if c == nil {
-				return "badcfg"
-			}
-			cfgs = append(cfgs, c)
+		cfgs, bad := s.loadList(tok[1:])
+		if bad != "" {
+			return bad
 		}
 		cfgs = append(cfgs, vmgrSentinel())
 		s.vm.UpdateAll(cfgs)
+		s.quiet = false
 		if !s.closed {
 			s.started = true
 		}
@@ -412,9 +555,15 @@ func vmgrExec(tok []string) string {
 		return s.state(s.waitPass())
 	case "close":
 		s.vm.Close()
-		s.closed = true
+		s.closed, s.quiet = true, true
 		vmgrWaitLoopGone()
 		return s.state(true)
+	case "closerace":
+		k := atoi(tok[1])
+		if k < 0 || k > 5 {
+			return "badport"
+		}
+		return s.closeRace(k)
 	case "xfer":
 		a, b := net.Pipe()
 		defer a.Close()
@@ -606,8 +755,25 @@ func vmgrGen(rng *rand.Rand, n int, emit func(string)) {
 		case r < 90:
 			emit(fmt.Sprintf("xfer %d", rng.Intn(5)))
 		case r < 93:
-			// a session ends: Close, then what Service.UpdateAllConfigurer still does with the dead control
-			emit("close")
+			// a session ends: Close, then what Service.UpdateAllConfigurer still does with the dead control.
+			// Half of the time Close() overtakes an iteration of the loop that is waiting for the lock, and
+			// mostly an address some configured visitor is waiting for is released at that moment (or the
+			// sibling that holds it is closed by Close() itself)
+			if rng.Intn(2) == 0 {
+				k := 0
+				for _, e := range cur {
+					if squat[e.port] && rng.Intn(3) != 0 {
+						k = e.port
+					}
+				}
+				if k == 0 && rng.Intn(4) == 0 {
+					k = 1 + rng.Intn(5)
+				}
+				delete(squat, k)
+				emit(fmt.Sprintf("closerace %d", k))
+			} else {
+				emit("close")
+			}
 			for k := rng.Intn(3); k > 0; k-- {
 				if rng.Intn(2) == 0 {
 					emitUpd(mutate())
